@@ -29,6 +29,7 @@ var (
 	flagLen      = flag.Int("len", 0, "ops per history (0 = tier default)")
 	flagBatch    = flag.String("batch", "", "child: batch request file")
 	flagResult   = flag.String("result", "", "child: result file")
+	flagTrace    = flag.Bool("trace", false, "child: print every op to stderr before applying it")
 )
 
 // batchReq asks a child process to run histories: either generate them online
@@ -89,7 +90,19 @@ func runHistory(t *testing.T, prop string, seed int64, idx int, n int, replay *S
 				op = roundTrip(g.next())
 				g.noteOp(op)
 			}
+			if *flagTrace {
+				o := map[string]any{}
+				for k, v := range op {
+					if k != "hello" && k != "details" {
+						o[k] = v
+					}
+				}
+				fmt.Fprintln(os.Stderr, "OP", i, jsonKey(o))
+			}
 			out, closed, note := w.apply(op)
+			if *flagTrace {
+				fmt.Fprintln(os.Stderr, "  ->", jsonKey(w.line(out, closed, note)))
+			}
 			line := w.line(out, closed, note)
 			res.Scenario.Ops = append(res.Scenario.Ops, op)
 			res.Lines = append(res.Lines, line)
@@ -228,7 +241,7 @@ func modelLines(scs []Scenario) ([][]Line, error) {
 			if err := json.Unmarshal([]byte(outLines[p]), &l); err != nil {
 				return nil, fmt.Errorf("model line %q: %v", outLines[p], err)
 			}
-			if strings.Contains(outLines[p], `"err"`) {
+			if strings.HasPrefix(outLines[p], `{"err"`) {
 				l.Note = outLines[p]
 			}
 			res[i] = append(res[i], l)
@@ -243,13 +256,13 @@ func compare(impl, model []Line, metaReq map[string]bool) (int, string, string) 
 	ci := canonLines(impl, metaReq)
 	cm := canonLines(model, metaReq)
 	for i := range ci {
-		a := jsonKey(map[string]any{"out": ci[i].Out, "closed": nonNil(ci[i].Closed), "panic": ci[i].Panic})
+		a := jsonKey(map[string]any{"out": ci[i].Out, "closed": nonNil(ci[i].Closed), "panic": ci[i].Panic, "refused": ci[i].Note == "refused"})
 		var b string
 		if i < len(cm) {
-			if cm[i].Note != "" {
+			if strings.HasPrefix(cm[i].Note, "{") {
 				b = cm[i].Note
 			} else {
-				b = jsonKey(map[string]any{"out": cm[i].Out, "closed": nonNil(cm[i].Closed), "panic": cm[i].Panic})
+				b = jsonKey(map[string]any{"out": cm[i].Out, "closed": nonNil(cm[i].Closed), "panic": cm[i].Panic, "refused": cm[i].Note == "refused"})
 			}
 		}
 		if a != b {
